@@ -4,6 +4,7 @@ CONSTANT TraceFile = "trace.ndjson"
 PROPERTIES
   Step_C37_ParamsPartialOverride
   Step_C37_RunExactAmounts
+  Step_C37_VarExactAmounts
   Step_C17_TxPitMixedFlags
   Step_C17_AcctPitAfterDelete
   Step_C20_VolumesWindowMetaNoHistory
